@@ -115,6 +115,15 @@ def validTablesB (y : DSymData) : Bool :=
   validSetB y.dset && y.orbitIndex == (collectOrbits y.dset).index &&
   y.orbitRs == (collectOrbits y.dset).rs && y.orbitVs.size == y.orbitRs.size
 
+/-- `FarCommute`: operations whose indices differ by more than one commute -/
+def farCommuteB (s : DSetData) : Bool :=
+  (List.range (s.dim + 1)).all fun i => (List.range (s.dim + 1)).all fun j =>
+    !(decide (i + 1 < j)) || (List.range s.size).all fun d0 =>
+      s.opU j (s.opU i (d0 + 1)) == s.opU i (s.opU j (d0 + 1))
+
+/-- `ValidSym`: valid tables and commuting far operations -/
+def validSymB (y : DSymData) : Bool := validTablesB y && farCommuteB y.dset
+
 /-- `SheetCompat` -/
 def sheetCompatB (s : DSetData) (n : Nat) (σ : Nat → Nat → Nat → Nat) : Bool :=
   (List.range n).all fun k => (List.range (s.dim + 1)).all fun i => (List.range s.size).all fun d0 =>
